@@ -2,7 +2,10 @@
    Rows and the field expressions come from Generated/Threads.v (regenerated from the Go source
    on every run).  Finite facts: boolean checkers run by vm_compute + soundness lemmas. *)
 From Coq Require Import ZArith QArith Qabs String Ascii List Bool Lia Reals Lra.
-From Sdfx Require Import Num.Ops Num.QInst Num.RInst Generated.Threads.
+From Sdfx Require Import Num.Ops.
+From Sdfx Require Import Num.QInst.
+From Sdfx Require Import Num.RInst.
+From Sdfx Require Import Generated.Threads.
 Import ListNotations.
 Local Open Scope Q_scope.
 Local Open Scope string_scope.
